@@ -145,8 +145,13 @@ def run_property(pid, tier, seed, relock=False, verbose=False):
     try:
         if not qs:
             raise StopIteration
-        p = native([os.path.join(HERE, 'vk', 'concrete.py'), 'search', str(seed)] + qs, env_extra=budget_env)
-        out = last_json(p.stdout) or {}
+        from concurrent.futures import ThreadPoolExecutor
+        chunks = [qs[k::6] for k in range(6) if qs[k::6]]
+        with ThreadPoolExecutor(len(chunks)) as tp:
+            procs = list(tp.map(lambda ch: native([os.path.join(HERE, 'vk', 'concrete.py'), 'search', str(seed)] + ch, env_extra=budget_env), chunks))
+        out = {}
+        for p in procs:
+            out.update(last_json(p.stdout) or {})
         for q, v in out.items():
             stt = v.get('stats', {})
             bounded['evaluations'] += stt.get('calls', 0)
